@@ -408,6 +408,7 @@ bool Plan::RefreshDyndepDependents(DependencyScan* scan,
 
   // Update the dirty state of all dependents and check if their edges
   // have become wanted.
+  bool added_validation_targets = false;
   for (set<Node*>::iterator i = dependents.begin();
        i != dependents.end(); ++i) {
     Node* n = *i;
@@ -422,9 +423,10 @@ bool Plan::RefreshDyndepDependents(DependencyScan* scan,
     for (std::vector<Node*>::iterator v = validation_nodes.begin();
          v != validation_nodes.end(); ++v) {
       if (Edge* in_edge = (*v)->in_edge()) {
-        if (!in_edge->outputs_ready() &&
-            !AddTarget(*v, err)) {
-          return false;
+        if (!in_edge->outputs_ready()) {
+          if (!AddTarget(*v, err))
+            return false;
+          added_validation_targets = true;
         }
       }
     }
@@ -441,6 +443,17 @@ bool Plan::RefreshDyndepDependents(DependencyScan* scan,
     if (want_e->second == kWantNothing) {
       want_e->second = kWantToStart;
       EdgeWanted(edge);
+    }
+  }
+
+  // Edges planned for the new validation targets may have all their inputs
+  // ready already; no finishing input will ever schedule those, so do it now
+  // (as ScheduleInitialEdges() does for the initial plan).
+  if (added_validation_targets) {
+    for (map<Edge*, Want>::iterator want_e = want_.begin();
+         want_e != want_.end(); ++want_e) {
+      if (want_e->second == kWantToStart && want_e->first->AllInputsReady())
+        ScheduleWork(want_e);
     }
   }
   return true;
